@@ -28,7 +28,7 @@ ASSUMPTIONS = [
     "bounded progress: a run in which no task starts, finishes or is delivered for 45 s is reported as non-termination; a run killed by the outer watchdog while still progressing is inconclusive",
     "the explicit-state model clause of the quantifier is NOT decided (different technique); schedule diversity from the grid and delay injection stands in, distinct interleavings are reported",
 ]
-FLOORS = {"quick": {"runs": 40, "delivered": 300, "retirements": 5, "failed_tasks_delivered": 5, "distinct:interleavings": 15, "network_error_tasks": 14, "retirement_waves_held_back": 1, "runs_with_tuple_ids": 2, "runs_after_an_earlier_pool": 2, "runs_with_message_less_failures": 3, "aborted_runs_with_results_still_being_queued": 2},
+FLOORS = {"quick": {"runs": 40, "delivered": 300, "retirements": 5, "failed_tasks_delivered": 5, "distinct:interleavings": 15, "network_error_tasks": 14, "retirement_waves_held_back": 1, "runs_with_tuple_ids": 2, "runs_after_an_earlier_pool": 2, "runs_with_message_less_failures": 3, "aborted_runs_with_results_still_being_queued": 2, "runs_with_results_that_cannot_be_pickled": 2},
           "thorough": {"runs": 500, "delivered": 3000, "retirements": 50, "failed_tasks_delivered": 50, "injected_delays": 500,
                        "distinct:interleavings": 150}}
 NPROC = {"quick": 8, "thorough": 16}
@@ -79,6 +79,8 @@ def grid(tier, seed):
     # a task failure that ends the run (tolerate_fails off) while the other workers still queue large results: the run must end, raising that failure
     base += [dict(n=16, pool=3, max_tasks=25, raising=[101], tolerate_fails=False, big_payload=200000, task_ms=5),
              dict(n=12, pool=4, max_tasks=25, raising=[100], tolerate_fails=False, big_payload=300000, task_ms=20, api="run")]
+    # results that cannot be pickled are failures of their own ids (multi-process pools only: one process hands results over as they are)
+    base += [dict(n=12, pool=3, max_tasks=25, unpicklable=[102, 107]), dict(n=10, pool=4, max_tasks=2, unpicklable=[103, 106, 109], api="run")]
     # failures without a message
     base += [dict(n=10, pool=3, max_tasks=25, raising_empty=[103, 108], raising=[105]), dict(n=8, pool=1, max_tasks=25, raising_empty=[103]),
              dict(n=8, pool=2, max_tasks=2, raising_empty=[101], tolerate_fails=False)]
@@ -203,7 +205,10 @@ def judge(spec, res, acc):
     delivered = [e for e in ev if e["k"] == "deliver"]
     dones = [e for e in ev if e["k"] == "done"]
     net_fail = set(spec.get("net_always", [])) | set(spec.get("net_wrapped", []))
-    raising = set(spec.get("raising", [])) | set(spec.get("raising_empty", [])) | net_fail
+    unpick = set(spec.get("unpicklable", []))
+    raising = set(spec.get("raising", [])) | set(spec.get("raising_empty", [])) | net_fail | unpick
+    if unpick:
+        acc.count("runs_with_results_that_cannot_be_pickled")
     if spec.get("raising_empty"):
         acc.count("runs_with_message_less_failures")
     if not spec.get("tolerate_fails", True) and spec.get("big_payload") and raising:
@@ -221,6 +226,8 @@ def judge(spec, res, acc):
             acc.violation("C12/earlier-pool-wrong", "the first of two pools in one process did not deliver its own ids with the values its own callbacks produce", dict(w, prelude=pre))
 
     def want_orig(i):
+        if i in unpick:
+            return "<pickling>"
         if i in set(spec.get("net_always", [])):
             return "ConnectionResetError" if i % 2 else "BrokenPipeError"
         if i in set(spec.get("net_wrapped", [])):
@@ -275,7 +282,8 @@ def judge(spec, res, acc):
         else:
             if e["id"] not in raising:
                 acc.violation("C12/success-delivered-as-failure", "a non-raising task was delivered as a failure", dict(w, event=e))
-            elif e.get("orig") != want_orig(e["id"]) or e.get("exc_dev") not in (e["id"], str(e["id"])):
+            elif (e.get("orig") != want_orig(e["id"]) and not (want_orig(e["id"]) == "<pickling>" and e.get("orig") in ("PicklingError", "AttributeError", "TypeError"))) \
+                    or e.get("exc_dev") not in (e["id"], str(e["id"])):
                 acc.violation("C12/wrong-failure", "delivered failure does not carry the task's own error/id", dict(w, event=e))
     dup = {i: c for i, c in del_count.items() if c > sub_count.get(i, 0)}
     if dup:
